@@ -71,7 +71,9 @@ class Session:
 
 def _externals(sessions):
     ident = lambda f: f     # noqa: E731
+    from .lib_common import extras
     return {
+        **extras(L),
         "io": L.namespace("io", IOBase=L.PyBase(
             "IOBase", {"close": lambda o, *a, **k: None})),
         "os": L.namespace("os", SEEK_SET=0, SEEK_CUR=1, SEEK_END=2),
